@@ -16,7 +16,8 @@ CONSTANTS NN,        \* number of source elements
           Nts,       \* values of num_threads (0 = Auto)
           Css,       \* chunk settings: <<"cs" | "csmin", value>> (value 0 = Auto)
           Fans,      \* what one element may produce
-          Crashes    \* crash points <<stage, key>>; <<-1, 0>> = no closure panics
+          Crashes,   \* crash points <<stage, key>>; <<-1, 0>> = no closure panics
+          Kinds      \* what the single stage is: subset of {"flat", "fmap", "filter"} (selects the kernel family)
 
 \* named alternatives for the configuration files (a .cfg cannot spell tuples)
 Cs_1_2 == {<<"cs", 1>>, <<"cs", 2>>}
@@ -27,27 +28,38 @@ Cs_all == {<<"cs", 1>>, <<"cs", 2>>, <<"cs", 3>>, <<"csmin", 1>>, <<"csmin", 2>>
 Fans_012 == {<<>>, <<0>>, <<0, 1>>}
 Fans_find == {<<>>, <<0>>, <<1>>, <<0, 1>>}
 Fans_1 == {<<0>>}
+Fans_01 == {<<>>, <<0>>, <<1>>}
 NoCrash == {<<-1, 0>>}
 \* the first closure panics on source position 0, 1, 2 or 3
 CrashStage1 == {<<1, 0>>, <<1, 1>>, <<1, 2>>, <<1, 3>>}
 
 IdInput == [i \in 1..NN |-> i - 1]
 
-MkProg(src, term, nt, cs, tt, mapOnly, cr) ==
+\* the stage of kind `kind` that realises the survive / fan-out pattern tt:
+\*   flat   : element i produces tt[i]                      (flat_map kernels)
+\*   fmap   : element i is dropped if tt[i] = <<>>, else mapped to the first value of tt[i]  (filter_map kernels)
+\*   filter : element i is dropped if tt[i] = <<>>, else kept as it is (map+filter kernels)
+StageOf(kind, tt) ==
+  CASE kind = "flat" -> [k |-> "flat", t |-> <<>>, tt |-> tt, v |-> 0, h |-> 0]
+    [] kind = "fmap" -> [k |-> "fmap", t |-> [i \in 1..NN |-> IF tt[i] = <<>> THEN -1 ELSE tt[i][1]], tt |-> <<>>, v |-> 0, h |-> 0]
+    [] kind = "filter" -> [k |-> "filter", t |-> [i \in 1..NN |-> IF tt[i] = <<>> THEN 0 ELSE 1], tt |-> <<>>, v |-> 0, h |-> 0]
+
+MkProg(src, term, nt, cs, tt, mapOnly, cr, kind) ==
   [src |-> src, input |-> IdInput,
    ops |-> << [k |-> "nt", t |-> <<>>, tt |-> <<>>, v |-> nt, h |-> 0],
               [k |-> cs[1], t |-> <<>>, tt |-> <<>>, v |-> cs[2], h |-> 0],
               IF mapOnly THEN [k |-> "map", t |-> [i \in 1..NN |-> 1], tt |-> <<>>, v |-> 0, h |-> 0]
-              ELSE [k |-> "flat", t |-> <<>>, tt |-> tt, v |-> 0, h |-> 0] >>,
-   term |-> [k |-> term, t |-> <<0, 1>>, op |-> "add", tk |-> "vec", pre |-> <<>>, cap |-> 0],
+              ELSE StageOf(kind, tt) >>,
+   \* find looks for value 1 (outputs of a filter stage keep the element's own value 0..NN-1)
+   term |-> [k |-> term, t |-> [i \in 1..(NN + 1) |-> IF i = 2 THEN 1 ELSE 0], op |-> "add", tk |-> "vec", pre |-> <<>>, cap |-> 0],
    cs |-> cr[1], ck |-> cr[2]]
 
 Tables == [1..NN -> Fans]
 
-Progs == {MkProg(src, term, nt, cs, tt, FALSE, cr) :
-             src \in Srcs, term \in Terms, nt \in Nts, cs \in Css, tt \in Tables, cr \in Crashes}
+Progs == {MkProg(src, term, nt, cs, tt, FALSE, cr, kind) :
+             src \in Srcs, term \in Terms, nt \in Nts, cs \in Css, tt \in Tables, cr \in Crashes, kind \in Kinds}
          \cup
-         {MkProg(src, term, nt, cs, <<>>, TRUE, cr) :
+         {MkProg(src, term, nt, cs, <<>>, TRUE, cr, "flat") :
              src \in Srcs, term \in Terms \cap {"collect_vec"}, nt \in Nts, cs \in Css, cr \in Crashes}
 
 Init == \E p \in Progs : InitFor(p)
